@@ -7,7 +7,7 @@ import math
 from .common import RATE_UNIT
 from . import kernel, observe
 from .netepi import build_graph
-from .scripted import explore, run_scripted, Incomplete, Unmodelled
+from .scripted import explore, run_scripted, Incomplete, Unmodelled, tagged
 
 SG = None  # SpecGraph, set by the check before forking
 
@@ -145,7 +145,8 @@ def run_scenario(task):
 
     unmodelled = None
     try:
-        leaves = explore(fn_full, max_exp=max_exp, on_leaf=on_leaf, max_leaves=task.get("max_leaves", 60000), deep_is_error=True)
+        with tagged():
+            leaves = explore(fn_full, max_exp=max_exp, on_leaf=on_leaf, max_leaves=task.get("max_leaves", 60000), deep_is_error=True)
     except Unmodelled as ex:
         unmodelled = str(ex)
         leaves = Incomplete()
